@@ -301,6 +301,12 @@ func (w *vfWorld) prepareStep(st vfStep) *vfPrepared {
 			if pw == "" {
 				pw = "never-was-a-password"
 			}
+		case "twin":
+			// the current password with its last characters changed
+			pw = w.dirsim.Password[strings.ToLower(st.User)]
+			if len(pw) > 4 {
+				pw = pw[:len(pw)-3] + "zzz"
+			}
 		case "wrong":
 			pw = "wrong-" + st.User
 		}
